@@ -530,7 +530,11 @@ class Program(object):
                     # generic args are reached through the fields that use them
                 else:
                     out.append(("extern", norm(t["def"]), i, owner))
-                    work.extend((x, owner) for x in t["args"] if isinstance(x, int))
+                    # an extern type with a lifetime parameter borrows (guards, iterators): it does
+                    # not own - and so does not drop - values of its type arguments
+                    borrows = any(isinstance(x, str) and x.startswith("'") for x in t["args"])
+                    if not borrows and norm(t["def"]) not in ("std::marker::PhantomData",):
+                        work.extend((x, owner) for x in t["args"] if isinstance(x, int))
             elif k in ("array", "slice"):
                 work.append((t["in"], owner))
             elif k == "tuple":
